@@ -418,21 +418,16 @@ Lemma base_safe_all : forall ops, base_safe (brun b_init ops).
 Proof. intros ops. apply base_spec_ok_safe. apply base_monitor_ok. Qed.
 
 (* ---------------------------------------------------------------------------------- *)
-(* peer leecher                                                                        *)
+(* peer leecher (repaired routine(): fixes/C18b.patch)                                  *)
 (* ---------------------------------------------------------------------------------- *)
 Local Open Scope N_scope.
 
-(* the application's Done() is monotone: once the download is done it stays done *)
-Definition oracle_mono (oracle : nat -> panswer) : Prop :=
-  forall k, a_done (oracle k) = true -> a_done (oracle (S k)) = true.
-
 (* relation between the leecher's counters and what the monitor has seen *)
-Record prel (par : N) (oracle : nat -> panswer) (s : pstate) (m : pmon) : Prop := mkPrel {
+Record prel (par : N) (s : pstate) (m : pmon) : Prop := mkPrel {
   q_req : p_req s = w_req m;
   q_proc : p_proc s = w_proc m;
   q_win : p_req s <= p_proc s + par;
-  q_fin : p_done s = w_fin m;
-  q_stay : p_done s = true -> a_done (oracle (p_run s)) = true
+  q_fin : p_done s = w_fin m
 }.
 
 Lemma sweep_mon : forall par f l keep n ev m,
@@ -463,117 +458,112 @@ Proof.
 Qed.
 
 Lemma proutine_sim : forall par oracle s m s' ev,
-  oracle_mono oracle -> prel par oracle s m -> proutine par oracle s = (s', ev) ->
-  exists m', pmon_final par m ev = Some m' /\ prel par oracle s' m' /\
+  prel par s m -> proutine par oracle s = (s', ev) ->
+  exists m', pmon_final par m ev = Some m' /\ prel par s' m' /\
     (p_done s = false -> a_done (oracle (p_run s)) = false -> a_susp (oracle (p_run s)) = false ->
      p_req s' = p_proc s' + par).
 Proof.
-  intros par oracle s m s' ev Hmono [Hr Hp Hw Hf Hst] H. unfold proutine in H.
-  destruct (a_done (oracle (p_run s))) eqn:Edone.
-  - (* Done() = true: Terminate *)
-    inversion H; subst. simpl. unfold pmon_ev.
-    destruct (w_fin m) eqn:Efin.
-    + exists m. split; [reflexivity|]. split; [|intros; discriminate].
-      constructor; simpl; auto; intros _; apply Hmono; exact Edone.
-    + eexists. split; [reflexivity|]. split; [|intros; discriminate].
-      constructor; simpl; auto; intros _; apply Hmono; exact Edone.
-  - (* not done: the leecher has not terminated before (monotone Done) *)
-    assert (Hnd : p_done s = false).
-    { destruct (p_done s) eqn:E; [|reflexivity]. pose proof (Hst eq_refl) as Hx. congruence. }
-    rewrite Hnd in *. symmetry in Hf.
-    destruct (sweep (a_proc (oracle (p_run s))) (p_chunks s)) as [[keep n] sev] eqn:Esw.
-    set (m1 := mkPM (w_req m) (w_proc m) false false).
-    assert (Hsw : pmon_final par m1 sev = Some (mkPM (w_req m) (w_proc m + n) false false)).
-    { apply (sweep_mon par _ _ _ _ _ m1 Esw). reflexivity. }
-    destruct (a_susp (oracle (p_run s))) eqn:Esusp.
-    + inversion H; subst. simpl. unfold pmon_ev at 1. rewrite Hf.
-      fold m1. rewrite (pmon_final_app _ _ _ _ _ Hsw). simpl. unfold pmon_ev. simpl.
-      eexists. split; [reflexivity|]. split; [constructor; simpl; auto; try lia; discriminate|intros; discriminate].
-    + destruct (p_req s <? p_proc s + n + par) eqn:Elt.
-      * inversion H; subst. simpl. unfold pmon_ev at 1. rewrite Hf.
+  intros par oracle s m s' ev [Hr Hp Hw Hf] H. unfold proutine in H.
+  destruct (p_done s) eqn:Hnd.
+  - (* the guard: a terminated leecher does nothing *)
+    inversion H; subst. exists m. simpl. split; [reflexivity|]. split; [constructor; auto; congruence|discriminate].
+  - unfold proutine_old in H. symmetry in Hf.
+    destruct (a_done (oracle (p_run s))) eqn:Edone.
+    + inversion H; subst. cbn [pmon_final pmon_ev]. rewrite Hf.
+      eexists. split; [reflexivity|]. split; [constructor; simpl; auto|intros; discriminate].
+    + destruct (sweep (a_proc (oracle (p_run s))) (p_chunks s)) as [[keep n] sev] eqn:Esw.
+      set (m1 := mkPM (w_req m) (w_proc m) false false).
+      assert (Hsw : pmon_final par m1 sev = Some (mkPM (w_req m) (w_proc m + n) false false)).
+      { apply (sweep_mon par _ _ _ _ _ m1 Esw). reflexivity. }
+      rewrite Hnd in H.
+      destruct (a_susp (oracle (p_run s))) eqn:Esusp.
+      * inversion H; subst. cbn [pmon_final pmon_ev]. rewrite Hf.
         fold m1. rewrite (pmon_final_app _ _ _ _ _ Hsw). simpl. unfold pmon_ev. simpl.
-        assert (Hle : (w_req m + (p_proc s + n + par - p_req s) <=? w_proc m + n + par) = true) by lia.
-        rewrite Hle. eexists. split; [reflexivity|].
-        split; [constructor; simpl; auto; try lia; discriminate|]. intros _ _ _. simpl. lia.
-      * inversion H; subst. simpl. unfold pmon_ev at 1. rewrite Hf.
-        fold m1. rewrite (pmon_final_app _ _ _ _ _ Hsw). simpl. unfold pmon_ev. simpl.
-        eexists. split; [reflexivity|].
-        split; [constructor; simpl; auto; try lia; discriminate|]. intros _ _ _. simpl. lia.
+        eexists. split; [reflexivity|]. split; [constructor; simpl; auto; lia|intros; discriminate].
+      * destruct (p_req s <? p_proc s + n + par) eqn:Elt.
+        -- inversion H; subst. cbn [pmon_final pmon_ev]. rewrite Hf.
+           fold m1. rewrite (pmon_final_app _ _ _ _ _ Hsw). simpl. unfold pmon_ev. simpl.
+           assert (Hle : (w_req m + (p_proc s + n + par - p_req s) <=? w_proc m + n + par) = true) by lia.
+           rewrite Hle. eexists. split; [reflexivity|].
+           split; [constructor; simpl; auto; lia|]. intros _ _ _. simpl. lia.
+        -- inversion H; subst. cbn [pmon_final pmon_ev]. rewrite Hf.
+           fold m1. rewrite (pmon_final_app _ _ _ _ _ Hsw). simpl. unfold pmon_ev. simpl.
+           eexists. split; [reflexivity|].
+           split; [constructor; simpl; auto; lia|]. intros _ _ _. simpl. lia.
 Qed.
 
 Lemma pstep_sim : forall par oracle s m o s' ev,
-  oracle_mono oracle -> prel par oracle s m -> pstep par oracle s o = (s', ev) ->
-  exists m', pmon_final par m ev = Some m' /\ prel par oracle s' m'.
+  prel par s m -> pstep par oracle s o = (s', ev) ->
+  exists m', pmon_final par m ev = Some m' /\ prel par s' m'.
 Proof.
-  intros par oracle s m o s' ev Hmono R H. unfold pstep in H.
-  destruct o as [id|].
+  intros par oracle s m o s' ev R H. unfold pstep, pstep_gen in H.
+  destruct o as [id| |].
   - destruct (p_done s) eqn:Ed.
     + inversion H; subst. exists m. simpl. auto.
     + destruct (N.of_nat (length (p_chunks s)) <? par * 2).
       * set (s1 := mkP (p_req s) (p_proc s) (p_chunks s ++ [id]) false (p_run s)) in *.
-        assert (R1 : prel par oracle s1 m) by (destruct R; constructor; simpl; auto; try congruence; discriminate).
-        destruct (proutine_sim par oracle s1 m s' ev Hmono R1 H) as [m' [H1 [H2 _]]]. eauto.
+        assert (R1 : prel par s1 m) by (destruct R; constructor; simpl; auto; congruence).
+        destruct (proutine_sim par oracle s1 m s' ev R1 H) as [m' [H1 [H2 _]]]. eauto.
       * inversion H; subst. exists m. simpl. auto.
-  - destruct (proutine_sim par oracle s m s' ev Hmono R H) as [m' [H1 [H2 _]]]. eauto.
+  - destruct (proutine_sim par oracle s m s' ev R H) as [m' [H1 [H2 _]]]. eauto.
+  - inversion H; subst. simpl. eexists. split; [reflexivity|]. destruct R. constructor; simpl; auto.
 Qed.
 
 Lemma prun_sim : forall par oracle ops s m s' ev,
-  oracle_mono oracle -> prel par oracle s m -> prun par oracle s ops = (s', ev) ->
-  exists m', pmon_final par m ev = Some m' /\ prel par oracle s' m'.
+  prel par s m -> prun par oracle s ops = (s', ev) ->
+  exists m', pmon_final par m ev = Some m' /\ prel par s' m'.
 Proof.
-  intros par oracle ops. induction ops as [|o ops IH]; intros s m s' ev Hmono R H; simpl in H.
+  intros par oracle ops. induction ops as [|o ops IH]; intros s m s' ev R H; unfold prun in H; simpl in H.
   - inversion H; subst. exists m. simpl. auto.
   - destruct (pstep par oracle s o) as [s1 e1] eqn:E1.
-    destruct (prun par oracle s1 ops) as [s2 e2] eqn:E2. inversion H; subst.
-    destruct (pstep_sim _ _ _ _ _ _ _ Hmono R E1) as [m1 [H1 R1]].
-    destruct (IH _ _ _ _ Hmono R1 E2) as [m2 [H2 R2]].
+    destruct (prun_gen (pstep par oracle) s1 ops) as [s2 e2] eqn:E2. inversion H; subst.
+    destruct (pstep_sim _ _ _ _ _ _ _ R E1) as [m1 [H1 R1]].
+    destruct (IH _ _ _ _ R1 E2) as [m2 [H2 R2]].
     exists m2. split; [|exact R2]. rewrite (pmon_final_app _ _ _ _ _ H1). exact H2.
 Qed.
 
-Lemma prel_init : forall par oracle, prel par oracle p_init pmon_init.
-Proof. intros par oracle. constructor; simpl; auto; try lia; discriminate. Qed.
+Lemma prel_init : forall par, prel par p_init pmon_init.
+Proof. intros par. constructor; simpl; auto; lia. Qed.
 
-(* main statement, peer leecher: for every parallelism, every monotone-Done oracle and every
-   sequence of chunk arrivals and ticks the callback log is accepted by the window monitor *)
+(* main statement, peer leecher: for every parallelism, EVERY oracle (Done() need not be
+   monotone) and every sequence of chunk arrivals, ticks and external Terminate() calls the
+   callback log is accepted by the monitor *)
 Lemma peer_monitor_ok : forall par oracle ops,
-  oracle_mono oracle ->
   peer_spec_ok par (snd (prun par oracle p_init ops)) = true.
 Proof.
-  intros par oracle ops Hmono. destruct (prun par oracle p_init ops) as [s' ev] eqn:E. simpl.
-  destruct (prun_sim _ _ _ _ _ _ _ Hmono (prel_init par oracle) E) as [m' [H _]].
+  intros par oracle ops. destruct (prun par oracle p_init ops) as [s' ev] eqn:E. simpl.
+  destruct (prun_sim _ _ _ _ _ _ _ (prel_init par) E) as [m' [H _]].
   apply pmon_run_final. eauto.
 Qed.
 
 (* state invariant: requested - processed never exceeds the limit *)
 Lemma peer_window_inv : forall par oracle ops,
-  oracle_mono oracle ->
   let s := fst (prun par oracle p_init ops) in p_req s <= p_proc s + par.
 Proof.
-  intros par oracle ops Hmono. destruct (prun par oracle p_init ops) as [s' ev] eqn:E. simpl.
-  destruct (prun_sim _ _ _ _ _ _ _ Hmono (prel_init par oracle) E) as [m' [_ [_ _ Hw _ _]]]. exact Hw.
+  intros par oracle ops. destruct (prun par oracle p_init ops) as [s' ev] eqn:E. simpl.
+  destruct (prun_sim _ _ _ _ _ _ _ (prel_init par) E) as [m' [_ [_ _ Hw _]]]. exact Hw.
 Qed.
 
 (* the window is kept full: a routine run that is neither done nor suspended leaves exactly
    [par] chunks requested-but-unprocessed *)
 Lemma peer_window_full : forall par oracle ops o,
-  oracle_mono oracle ->
   let s := fst (prun par oracle p_init ops) in
   p_done s = false ->
   a_done (oracle (p_run s)) = false -> a_susp (oracle (p_run s)) = false ->
   (o = PTick \/ exists id, o = PChunk id /\ N.of_nat (length (p_chunks s)) < par * 2) ->
   let s' := fst (pstep par oracle s o) in p_req s' = p_proc s' + par.
 Proof.
-  intros par oracle ops o Hmono. destruct (prun par oracle p_init ops) as [s ev] eqn:E. simpl.
-  destruct (prun_sim _ _ _ _ _ _ _ Hmono (prel_init par oracle) E) as [m [_ R]].
-  intros Hd Hdone Hsusp Ho. unfold pstep.
+  intros par oracle ops o. destruct (prun par oracle p_init ops) as [s ev] eqn:E. simpl.
+  destruct (prun_sim _ _ _ _ _ _ _ (prel_init par) E) as [m [_ R]].
+  intros Hd Hdone Hsusp Ho. unfold pstep, pstep_gen.
   destruct Ho as [->|[id [-> Hlen]]].
   - destruct (proutine par oracle s) as [s' ev'] eqn:Er.
-    destruct (proutine_sim _ _ _ _ _ _ Hmono R Er) as [_ [_ [_ Hfull]]]. simpl. auto.
+    destruct (proutine_sim _ _ _ _ _ _ R Er) as [_ [_ [_ Hfull]]]. simpl. auto.
   - rewrite Hd. assert (Hl : (N.of_nat (length (p_chunks s)) <? par * 2) = true) by lia. rewrite Hl.
     match goal with |- context [proutine par oracle ?x] => set (s1 := x) end.
-    assert (R1 : prel par oracle s1 m) by (destruct R; constructor; simpl; auto; try congruence).
+    assert (R1 : prel par s1 m) by (destruct R; constructor; simpl; auto; congruence).
     destruct (proutine par oracle s1) as [s' ev'] eqn:Er.
-    destruct (proutine_sim _ _ _ _ _ _ Hmono R1 Er) as [_ [_ [_ Hfull]]]. simpl. apply Hfull; simpl; auto.
+    destruct (proutine_sim _ _ _ _ _ _ R1 Er) as [_ [_ [_ Hfull]]]. simpl. apply Hfull; simpl; auto.
 Qed.
 
 (* what acceptance by the peer monitor means *)
@@ -586,11 +576,13 @@ Fixpoint susp_now (cur : bool) (l : list pev) : bool :=
   match l with [] => cur | PDone _ :: r => susp_now false r | PSusp b :: r => susp_now b r
              | PReq _ :: r => susp_now false r | _ :: r => susp_now cur r end.
 
+Definition stopped (l : list pev) : Prop := In (PDone true) l \/ In PTerminated l.
+
 Definition peer_safe (par : N) (log : list pev) : Prop :=
   forall pre e post, log = pre ++ e :: post ->
-    (* once Done() has answered true, only further Done() = true polls follow: no
-       IsProcessed, no Suspend, no RequestChunks *)
-    (In (PDone true) pre -> e = PDone true) /\
+    (* once Done() has answered true, or an external Terminate() has returned, no callback is
+       made any more: no Done, IsProcessed, Suspend, RequestChunks *)
+    (stopped pre -> e = PTerminated) /\
     match e with
     | PReq k => count_req pre + k <= count_proc pre + par     (* window *)
                 /\ susp_now false pre = false                 (* not in a suspended run *)
@@ -600,7 +592,7 @@ Definition peer_safe (par : N) (log : list pev) : Prop :=
 Lemma pmon_final_safe : forall par log m m',
   pmon_final par m log = Some m' ->
   forall pre e post, log = pre ++ e :: post ->
-    ((w_fin m = true \/ In (PDone true) pre) -> e = PDone true) /\
+    ((w_fin m = true \/ stopped pre) -> e = PTerminated) /\
     match e with
     | PReq k => w_req m + count_req pre + k <= w_proc m + count_proc pre + par
                 /\ susp_now (w_susp m) pre = false
@@ -613,31 +605,40 @@ Proof.
     unfold pmon_ev in E.
     destruct pre as [|y pre]; simpl in Heq; inversion Heq; subst.
     + (* e is the first event *)
-      destruct (w_fin m) eqn:Efin.
-      * destruct e as [[|]|id b|b|k]; try discriminate. split; [auto|exact I].
-      * split; [intros [Hc|[]]; discriminate|].
-        destruct e as [b|id b|b|k]; auto. simpl.
+      split.
+      * intros [Hfin|[Hx|Hx]]; [|destruct Hx|destruct Hx].
+        destruct e as [b|id b|b|k|]; try reflexivity; try rewrite Hfin in E; discriminate.
+      * destruct e as [b|id b|b|k|]; auto. simpl.
+        destruct (w_fin m); [discriminate|].
         destruct (w_susp m) eqn:Es; [discriminate|].
         destruct (w_req m + k <=? w_proc m + par) eqn:El; [|discriminate]. split; [lia|reflexivity].
     + destruct (IH _ _ H pre e post eq_refl) as [Hafter Hm].
-      destruct (w_fin m) eqn:Efin.
-      * (* already finished: y = Done true, monitor unchanged *)
-        destruct y as [[|]|id' b'|b'|k']; try discriminate. inversion E; subst m1.
-        split; [intros _; apply Hafter; left; exact Efin|].
-        destruct e as [b|id b|b|k]; auto.
-        assert (Habs : PReq k = PDone true) by (apply Hafter; left; exact Efin). discriminate.
-      * split.
-        -- intros [Hc|[Hy|Hin]]; [discriminate| |apply Hafter; right; exact Hin].
-           subst y. inversion E; subst m1. apply Hafter. left. reflexivity.
-        -- destruct e as [b|id b|b|k]; auto.
-           destruct y as [b'|id' b'|b'|k']; cbn [count_req count_proc susp_now].
-           ++ inversion E; subst. simpl in Hm. exact Hm.
-           ++ inversion E; subst. cbn [w_req w_proc w_susp] in Hm. destruct Hm as [H1 H2].
-              destruct b'; cbn [count_req count_proc susp_now]; split; auto; lia.
-           ++ inversion E; subst. simpl in Hm. exact Hm.
-           ++ destruct (w_susp m); [discriminate|].
-              destruct (w_req m + k' <=? w_proc m + par); [|discriminate].
-              inversion E; subst. simpl in Hm. destruct Hm as [H1 H2]. split; [lia|exact H2].
+      assert (Hfin1 : w_fin m = true \/ y = PDone true \/ y = PTerminated -> w_fin m1 = true).
+      { intros [Hf|[Hy|Hy]]; [|subst y|subst y].
+        - destruct y as [b'|id' b'|b'|k'|]; try rewrite Hf in E; try discriminate. inversion E; subst. reflexivity.
+        - destruct (w_fin m); [discriminate|]. inversion E; subst. reflexivity.
+        - inversion E; subst. reflexivity. }
+      split.
+      * intros Hst. apply Hafter.
+        destruct Hst as [Hf|[[Hy|Hin]|[Hy|Hin]]].
+        -- left. apply Hfin1. left. exact Hf.
+        -- left. apply Hfin1. right. left. exact Hy.
+        -- right. left. exact Hin.
+        -- left. apply Hfin1. right. right. exact Hy.
+        -- right. right. exact Hin.
+      * destruct e as [b|id b|b|k|]; auto.
+        destruct y as [b'|id' b'|b'|k'|]; cbn [count_req count_proc susp_now].
+        -- destruct (w_fin m); [discriminate|]. inversion E; subst. simpl in Hm. exact Hm.
+        -- destruct (w_fin m); [discriminate|]. inversion E; subst. cbn [w_req w_proc w_susp] in Hm.
+           destruct Hm as [H1 H2]. destruct b'; cbn [count_req count_proc susp_now]; split; auto; lia.
+        -- destruct (w_fin m); [discriminate|]. inversion E; subst. simpl in Hm. exact Hm.
+        -- destruct (w_fin m); [discriminate|]. destruct (w_susp m); [discriminate|].
+           destruct (w_req m + k' <=? w_proc m + par); [|discriminate].
+           inversion E; subst. simpl in Hm. destruct Hm as [H1 H2]. split; [lia|exact H2].
+        -- (* after an external Terminate no request can follow *)
+           assert (Habs : PReq k = PTerminated).
+           { apply Hafter. left. apply Hfin1. right. right. reflexivity. }
+           discriminate.
 Qed.
 
 Lemma peer_spec_ok_safe : forall par log, peer_spec_ok par log = true -> peer_safe par log.
@@ -647,13 +648,19 @@ Proof.
   split; [intros Hin; apply Hafter; right; exact Hin|]. destruct e; auto.
 Qed.
 
-Lemma peer_safe_all : forall par oracle ops,
-  oracle_mono oracle -> peer_safe par (snd (prun par oracle p_init ops)).
-Proof. intros. apply peer_spec_ok_safe. apply peer_monitor_ok. assumption. Qed.
+Lemma peer_safe_all : forall par oracle ops, peer_safe par (snd (prun par oracle p_init ops)).
+Proof. intros. apply peer_spec_ok_safe. apply peer_monitor_ok. Qed.
 
-(* why monotonicity of Done() is needed: the ticker branch of loop() does not look at d.done, so
-   an application whose Done() goes back to false makes a terminated leecher request again *)
-Example peer_nonmonotone_done_requests_after_termination :
-  snd (prun 1 (script_oracle [(true, false, []); (false, false, [])]) p_init [PTick; PTick]) =
+(* the pinned tree's routine() (no d.done guard; the ticker branch of loop() does not check it
+   either): after Done() = true a tick polls Done() again, and when the application's Done()
+   goes back to false the terminated leecher requests chunks *)
+Example peer_monitor_old_refuted :
+  peer_spec_ok 1 (snd (prun_old 1 (script_oracle [(true, false, [])]) p_init [PTick; PTick])) = false /\
+  snd (prun_old 1 (script_oracle [(true, false, []); (false, false, [])]) p_init [PTick; PTick]) =
   [PDone true; PDone false; PSusp false; PReq 1].
-Proof. vm_compute. reflexivity. Qed.
+Proof. vm_compute. auto. Qed.
+
+Example peer_witness_repaired :
+  snd (prun 1 (script_oracle [(true, false, []); (false, false, [])]) p_init [PTick; PTick]) = [PDone true] /\
+  snd (prun 1 (script_oracle [(false, false, [])]) p_init [PTerminate; PTick; PChunk 3]) = [PTerminated].
+Proof. vm_compute. auto. Qed.
